@@ -355,8 +355,10 @@ fn gen_c09(r: &mut Rng, idx: u64) -> Vec<Op> {
     ops.push(Op::InitArea { start: adj, len: 64, seed: r.next() | 1, named: true });
     ops.push(Op::InitArea { start: stack + 256, len: 64, seed: r.next() | 1, named: false });
     let mut cells: Vec<(u32, u32)> = Vec::new(); // (mask, path)
+    // a stack made by init_stack (the library knows which area that is) besides the hand-made one
+    ops.push(Op::InitStack { len: 256 });
     for mask in 0..8u32 {
-        for path in 0..19u32 {
+        for path in 0..20u32 {
             cells.push((mask, path));
         }
     }
@@ -463,6 +465,9 @@ fn gen_c09(r: &mut Rng, idx: u64) -> Vec<Op> {
                     _ => ops.push(Op::GuestStore { size: *r.pick(&[1u32, 4, 8]), addr: nops + r.below(32), val: hex(0x90) }),
                 }
                 ops.push(Op::Resize { start: nops, new_len: 64 });
+            }
+            19 => {
+                ops.push(Op::OnInitStack { mask, kind: r.pick(&["push", "call", "push", "call", "pop", "ret"]).to_string() });
             }
             18 => {
                 // a fresh area starts with the default rights whatever stood at its address before: an area is
